@@ -125,6 +125,15 @@ func checkC03(c *Ctx) error {
 		}
 		writeTree(famRoot, t)
 	}
+	mixedRoot, err := c.newSandbox("c03mixed")
+	if err != nil {
+		return err
+	}
+	writeTree(mixedRoot, Tree{"regex-assembly/toolchain.yaml": "patterns:\n  anti_evasion:\n    unix: 'x|\\.'\n    windows: 'x*'\n  anti_evasion_suffix:\n    unix: '(?:\\s|$)'\n    windows: '$|x'\n  anti_evasion_no_space_suffix:\n    unix: 'x*'\n    windows: 'x?'\n"})
+	for _, sh := range []string{"unix", "windows"} {
+		jobs = append(jobs, job{what: "cmdline block, configuration with and without alternations", root: mixedRoot,
+			text: "##!> cmdline " + sh + "\naa@\nab~\n##!<\n", same: "##!> cmdline " + sh + "\naa@\nab~\n##!<\n"})
+	}
 	jobs = append(jobs, job{what: "flag set", text: "##!+ s\n##!+ i\na.\nb\n", same: "##!+ is\na.\nb\n", root: root})
 	var unstable int64
 	parallel(len(jobs), 16, func(i int) {
@@ -199,7 +208,7 @@ func checkC03(c *Ctx) error {
 	c.Cov["fresh_processes_per_case"] = runs
 	c.Cov["cli_executions"] = cli
 	c.Cov["exhaustive"] = false
-	c.Cov["rule"] = fmt.Sprintf("TLC checks for all 5040 iteration orders of the pattern map that every line of a 23-line vocabulary of multi-claimable lines (directive text inside comments, prefix/suffix values, after entries, glued keywords) is claimed by at most one pattern and gets the expected kind; each line, plus up to %d programs per family with several suffix pairs / several nested definitions (from MC_Parse) and a flag set, is compiled in %d fresh processes (Go re-randomises map iteration per process): all results must be byte-identical and equal to the result of the equivalent program the spec derives; compare/update/format on the same tree are repeated %d times; non-trivial = every case (each contains an order-relevant construct by construction)", perFamily, runs, runs/3)
+	c.Cov["rule"] = fmt.Sprintf("TLC checks for all 5040 iteration orders of the pattern map that every line of a 27-line vocabulary of multi-claimable lines (directive text inside comments, prefix/suffix values, after entries, glued keywords) is claimed by at most one pattern and gets the expected kind; each line, plus up to %d programs per family with several suffix pairs / several nested definitions (from MC_Parse) and a flag set, is compiled in %d fresh processes (Go re-randomises map iteration per process): all results must be byte-identical and equal to the result of the equivalent program the spec derives; compare/update/format on the same tree are repeated %d times; non-trivial = every case (each contains an order-relevant construct by construction)", perFamily, runs, runs/3)
 	c.Assumptions = append(c.Assumptions, "iteration orders of the real process are sampled, not enumerated: a small Go map starts at a random one of 8 slots, so a pairwise inversion shows up in a given run with probability >= 1/8 (P(miss in 24 runs) < 5%, in 64 runs < 0.02%)")
 	c.Summary = fmt.Sprintf("orders_x_lines=%d cases=%d runs_each=%d cli=%d", st.Distinct, len(jobs), runs, cli)
 	return nil
